@@ -37,7 +37,10 @@ def assignments(case, leaf_bounds):
     ``leaf_bounds`` come from the built object (id -> (lo,hi)); drawn points follow sorted spec ids."""
     ids = sorted(leaf_bounds)
     if case.get("points") is None:
-        yield from oracle.box_points(ids, [leaf_bounds[i] for i in ids])
+        bnds = [leaf_bounds[i] for i in ids]
+        if oracle.box_size(bnds) > 20000:      # only reachable for specs generated without a point sample
+            bnds = [(lo, min(hi, lo + 3)) for lo, hi in bnds]
+        yield from oracle.box_points(ids, bnds)
     else:
         spec_ids = sorted(oracle.spec_leaves(case["model"]))
         for p in case["points"]:
